@@ -4,7 +4,10 @@
 
     Which requests reach [Checker.Check] at all: the per-request settings
     (protection, the switch of the service) and nothing else; the host is
-    looked at only to answer the root query [""] at once and to lower-case it.
+    looked at only to answer the root query [""] at once and to lower-case it;
+    the question type (round 6: an explicit argument, as in the Go
+    signatures) is passed along to every host checker and ignored by the two
+    of this path.
     The checkers are parameters (anything with the signature of
     [Checker.Check] on some state), so that the glue can be composed with the
     Checker of Model/HashPrefix.v or with any other implementation.
@@ -30,10 +33,15 @@ Inductive service := SafeBrowsing | Parental.
 Definition svc_enabled (s : service) (st : settings) : bool :=
   match s with SafeBrowsing => st_safebrowsing st | Parental => st_parental st end.
 
+(** The type of the question (the [qtype uint16] argument of [CheckHost], of
+    every entry of [d.hostCheckers] and so of [checkSafeBrowsing] /
+    [checkParental], where it is the blank parameter [_]). *)
+Definition qtype := N.
+
 (** The test at the top of [checkSafeBrowsing] / [checkParental]: does the
-    glue call the checker of service [s] for [host]?  The host is not looked
-    at. *)
-Definition glue_calls (s : service) (st : settings) (host : bytes) : bool :=
+    glue call the checker of service [s] for a question of type [qt] about
+    [host]?  Neither the type nor the host is looked at. *)
+Definition glue_calls (s : service) (st : settings) (qt : qtype) (host : bytes) : bool :=
   st_protection st && svc_enabled s st.
 
 (** [Result.Reason], as far as this path can set it. *)
@@ -50,14 +58,14 @@ Section Glue.
   Context {C1 C2 : Type}.
   (** [calls] is a parameter only so that variants of the test can be stated
       (and refuted); the code is [glue_calls]. *)
-  Variable calls : service -> settings -> bytes -> bool.
+  Variable calls : service -> settings -> qtype -> bytes -> bool.
   Variable sb : bytes -> C1 -> C1 * check_out.   (* d.safeBrowsingChecker.Check *)
   Variable pc : bytes -> C2 -> C2 * check_out.   (* d.parentalControlChecker.Check *)
 
   (** The entry "parental" of [d.hostCheckers] and what follows it. *)
-  Definition glue_parental (st : settings) (host : bytes) (c1 : C1) (c2 : C2)
+  Definition glue_parental (st : settings) (qt : qtype) (host : bytes) (c1 : C1) (c2 : C2)
       (o1 : option (bytes * check_out)) : (C1 * C2) * glue_out :=
-    if calls Parental st host then
+    if calls Parental st qt host then
       let '(c2', o2) := pc host c2 in
       ((c1, c2'),
        {| g_reason := if o_err o2 then RNotFiltered else if o_blocked o2 then RParental else RNotFiltered;
@@ -67,20 +75,20 @@ Section Glue.
   (** [CheckHost]: the root query is answered at once; the name is
       lower-cased; the host checkers run in their order and the first error or
       match ends the loop. *)
-  Definition glue_check_host_with (st : settings) (spelled : bytes) (c1 : C1) (c2 : C2)
+  Definition glue_check_host_with (st : settings) (qt : qtype) (spelled : bytes) (c1 : C1) (c2 : C2)
       : (C1 * C2) * glue_out :=
     match spelled with
     | [] => ((c1, c2), {| g_reason := RNotFiltered; g_err := false; g_sb := None; g_pc := None |})
     | _ =>
         let host := caller_name spelled in
-        if calls SafeBrowsing st host then
+        if calls SafeBrowsing st qt host then
           let '(c1', o1) := sb host c1 in
           if o_err o1 then
             ((c1', c2), {| g_reason := RNotFiltered; g_err := true; g_sb := Some (host, o1); g_pc := None |})
           else if o_blocked o1 then
             ((c1', c2), {| g_reason := RSafeBrowsing; g_err := false; g_sb := Some (host, o1); g_pc := None |})
-          else glue_parental st host c1' c2 (Some (host, o1))
-        else glue_parental st host c1 c2 None
+          else glue_parental st qt host c1' c2 (Some (host, o1))
+        else glue_parental st qt host c1 c2 None
     end.
 End Glue.
 
@@ -89,11 +97,11 @@ Definition glue_check_host {C1 C2 : Type} := @glue_check_host_with C1 C2 glue_ca
 (** A history of requests through one DNSFilter: the two checkers keep their
     caches from one request to the next. *)
 Fixpoint glue_run {C1 C2 : Type} (sb : bytes -> C1 -> C1 * check_out) (pc : bytes -> C2 -> C2 * check_out)
-    (reqs : list (settings * bytes)) (c1 : C1) (c2 : C2) : list glue_out :=
+    (reqs : list (settings * qtype * bytes)) (c1 : C1) (c2 : C2) : list glue_out :=
   match reqs with
   | [] => []
-  | (st, spelled) :: r =>
-      let '((c1', c2'), out) := glue_check_host sb pc st spelled c1 c2 in
+  | (st, qt, spelled) :: r =>
+      let '((c1', c2'), out) := glue_check_host sb pc st qt spelled c1 c2 in
       out :: glue_run sb pc r c1' c2'
   end.
 
@@ -116,5 +124,16 @@ Definition is_bare_suffix (pubsuf : bytes -> bytes * bool) (host : bytes) : bool
       || (length host <=? length (fst (pubsuf host)))%nat
   end.
 
-Definition glue_calls_bare (pubsuf : bytes -> bytes * bool) (s : service) (st : settings) (host : bytes) : bool :=
-  glue_calls s st host && negb (is_bare_suffix pubsuf host).
+Definition glue_calls_bare (pubsuf : bytes -> bytes * bool) (s : service) (st : settings) (qt : qtype)
+    (host : bytes) : bool :=
+  glue_calls s st qt host && negb (is_bare_suffix pubsuf host).
+
+(** ** Another variant that is NOT the code (red-team change C19-L): the
+    question type is used; the lookup is made only for the types that are
+    answered with the blocking host (A = 1, AAAA = 28, HTTPS = 65), "to save
+    the round trip" for the others. *)
+Definition is_block_host_qtype (qt : qtype) : bool :=
+  ((qt =? 1) || (qt =? 28) || (qt =? 65))%N.
+
+Definition glue_calls_addr (s : service) (st : settings) (qt : qtype) (host : bytes) : bool :=
+  glue_calls s st qt host && is_block_host_qtype qt.
